@@ -2,6 +2,7 @@ package main
 
 import (
 	"fmt"
+	"go/constant"
 	"go/token"
 	"go/types"
 	"sort"
@@ -52,7 +53,7 @@ func runC01(p *Program, r *Report) {
 	for _, m := range []struct {
 		r string
 		n int
-	}{{"C01.R1", 12}, {"C01.R2", 9}, {"C01.R3", 4}, {"C01.R4", 1}, {"C01.R5", 12}, {"C01.R6", 6}, {"C01.R7", 8}, {"C01.R8", 1}, {"C01.R9", 7}, {"C01.R10", 2}, {"C01.R11", 1}, {"C01.R12", 15}, {"C01.R13", 1}} {
+	}{{"C01.R1", 12}, {"C01.R2", 9}, {"C01.R3", 4}, {"C01.R4", 1}, {"C01.R5", 12}, {"C01.R6", 6}, {"C01.R7", 8}, {"C01.R8", 1}, {"C01.R9", 7}, {"C01.R10", 2}, {"C01.R11", 1}, {"C01.R12", 15}, {"C01.R13", 1}, {"C01.R14", 3}} {
 		r.Min(m.r, m.n)
 	}
 	checkSpeculativeMerge(p, r, "C01.R9")
@@ -415,6 +416,134 @@ func checkContextFieldCompleteness(p *Program, r *Report) {
 	}
 	sort.Strings(ks)
 	r.Analysed["fields_compared_or_merged"] = ks
+	// a field that join() merges into its first operand must take the second operand's value into account:
+	// a flag accumulated in one branch only (set by an action in the {{else}} branch, by an inner join) is
+	// otherwise forgotten at the join
+	checkJoinMergesBoth(p, r, "C01.R14", "")
+}
+
+// checkJoinMergesBoth: every field (under prefix) that join() assigns in its first operand is read from the second.
+func checkJoinMergesBoth(p *Program, r *Report, rule, prefix string) {
+	join := p.Func("template", "join")
+	if join == nil {
+		r.Undec(rule, "template.join", "", "anchor not found")
+		return
+	}
+	readsB := map[string]bool{}
+	contextReads(p, join, 1, "", readsB, -1)
+	for _, path := range contextFieldStores(join, 0) {
+		if !strings.HasPrefix(path, prefix) {
+			continue
+		}
+		c := "template.join#merges-both:" + path
+		r.Check(readsB[path], rule, c, p.Pos(join.Pos()), "the merged field takes the value of both operands into account", "join() updates "+path+" of its first operand without reading "+path+" of the second: what only the second branch recorded there is forgotten — "+`<a href="{{if .N}}{{else}}{{if .N}}{{else}}java{{end}}{{end}}{{.Z}}"> and <link rel="icon {{if .C}}{{else}}{{.R}}{{end}}" href="{{.U}}">`)
+	}
+}
+
+// contextFieldStores: the field paths of parameter #idx (a struct passed by value) that fn assigns.
+func contextFieldStores(fn *ssa.Function, idx int) []string {
+	prm := fn.Params[idx]
+	var roots []ssa.Value
+	for _, ref := range *prm.Referrers() {
+		if st, ok := ref.(*ssa.Store); ok && st.Val == ssa.Value(prm) {
+			roots = append(roots, st.Addr)
+		}
+	}
+	seen := map[string]bool{}
+	var visit func(v ssa.Value, path string)
+	visit = func(v ssa.Value, path string) {
+		for _, ref := range *v.Referrers() {
+			switch x := ref.(type) {
+			case *ssa.FieldAddr:
+				if x.X == v {
+					visit(x, join2(path, fieldName(x.X.Type(), x.Field)))
+				}
+			case *ssa.Store:
+				if x.Addr == v && path != "" {
+					seen[path] = true
+				}
+			}
+		}
+	}
+	for _, rt := range roots {
+		visit(rt, "")
+	}
+	var out []string
+	for k := range seen {
+		out = append(out, k)
+	}
+	sort.Strings(out)
+	return out
+}
+
+// underFieldDisagreement: b is entered (within three steps) from a branch that compares two loads of
+// a field called name with each other.
+func underFieldDisagreement(b *ssa.BasicBlock, name string) bool {
+	isLoad := func(v ssa.Value) bool {
+		u, ok := v.(*ssa.UnOp)
+		if !ok || u.Op != token.MUL {
+			return false
+		}
+		fa, ok := u.X.(*ssa.FieldAddr)
+		return ok && fieldName(fa.X.Type(), fa.Field) == name
+	}
+	seen := map[*ssa.BasicBlock]bool{}
+	var walk func(x *ssa.BasicBlock, d int) bool
+	walk = func(x *ssa.BasicBlock, d int) bool {
+		if d > 3 || seen[x] {
+			return false
+		}
+		seen[x] = true
+		for _, pr := range x.Preds {
+			if iff, ok := pr.Instrs[len(pr.Instrs)-1].(*ssa.If); ok {
+				if bo, ok := iff.Cond.(*ssa.BinOp); ok && (bo.Op == token.NEQ || bo.Op == token.EQL) && isLoad(bo.X) && isLoad(bo.Y) {
+					return true
+				}
+			}
+			// only through condition chains, not through merge points
+			if len(pr.Preds) == 1 && walk(pr, d+1) {
+				return true
+			}
+		}
+		return false
+	}
+	return walk(b, 0)
+}
+
+// contextFlagStores: the bool fields of the idx-th (context) parameter of fn that fn sets to true
+// where two loads of the field onField disagree.
+func contextFlagStores(fn *ssa.Function, idx int, onField string) []string {
+	if idx >= len(fn.Params) {
+		return nil
+	}
+	prm := fn.Params[idx]
+	seen := map[string]bool{}
+	var visit func(v ssa.Value, path string)
+	visit = func(v ssa.Value, path string) {
+		for _, ref := range *v.Referrers() {
+			switch x := ref.(type) {
+			case *ssa.FieldAddr:
+				if x.X == v {
+					visit(x, join2(path, fieldName(x.X.Type(), x.Field)))
+				}
+			case *ssa.Store:
+				if c, ok := x.Val.(*ssa.Const); ok && x.Addr == v && path != "" && c.Value != nil && c.Value.Kind() == constant.Bool && constant.BoolVal(c.Value) && underFieldDisagreement(x.Block(), onField) {
+					seen[path] = true
+				}
+			}
+		}
+	}
+	for _, ref := range *prm.Referrers() {
+		if st, ok := ref.(*ssa.Store); ok && st.Val == ssa.Value(prm) {
+			visit(st.Addr, "")
+		}
+	}
+	var out []string
+	for k := range seen {
+		out = append(out, k)
+	}
+	sort.Strings(out)
+	return out
 }
 
 func checkJoins(p *Program, r *Report) {
